@@ -53,7 +53,20 @@ def what_run(m):
             f"run gave {json.dumps(m['observed'])}; spec allows {json.dumps(c['allowed'])}")
 
 
-def replay_step_cases(ck, cases_path, tag, only_failing=False):
+def c03_relevant(m):
+    """Mismatches that contradict C03 (totality, bounds, only overflow aborts)."""
+    ob = m["observed"]
+    if "panic" in ob:
+        return True
+    kinds = {a["kind"] for a in m["case"]["allowed"]}
+    if ob["kind"] == "fatal" and "fatal" not in kinds:
+        return True
+    if kinds == {"fatal"} and ob["kind"] != "fatal":
+        return True
+    return False
+
+
+def replay_step_cases(ck, cases_path, tag, only_failing=False, relevant=None):
     if only_failing:
         src = cases_path
         cases_path = os.path.join(ck.work, f"failing-{tag}.ndjson")
@@ -68,12 +81,14 @@ def replay_step_cases(ck, cases_path, tag, only_failing=False):
     ck.harness(["vm-step-replay", "--cases", cases_path, "--out", out], timeout=1800)
     res = vlib.read_ndjson(out)
     for m in res[:-1]:
+        if relevant is not None and not relevant(m):
+            continue
         ck.violation(sig_step(m), what_step(m),
                      {"kind": "step-case", "case": m["case"], "observed": m["observed"]})
     return res[-1]
 
 
-def mc_step(ck, only_failing=False):
+def mc_step(ck, only_failing=False, relevant=None):
     q = ck.tier == "quick"
     cfg = "vm/MC_PushStep_quick.cfg" if q else "vm/MC_PushStep_thorough.cfg"
     cpath = os.path.join(ck.work, "step-cases.ndjson")
@@ -81,7 +96,7 @@ def mc_step(ck, only_failing=False):
                        cases_path=cpath, xmx="8g" if q else "20g")
     if res.ncases == 0:
         raise vlib.ToolError("MC_PushStep emitted no cases")
-    summ = replay_step_cases(ck, cpath, "mc", only_failing=only_failing)
+    summ = replay_step_cases(ck, cpath, "mc", only_failing=only_failing, relevant=relevant)
     c = ck.cov["conformance"]
     c["step_cases_emitted"] = res.ncases
     c["step_cases_replayed"] = summ["cases"]
